@@ -50,6 +50,7 @@ type Profile struct {
 	Shutdown    bool        `json:"shutdown"`
 	CloseIn     bool        `json:"closein"`
 	WFail       bool        `json:"wfail"`
+	WFailLater  bool        `json:"wfail_later,omitempty"` /* Also: the next write succeeds, the one after it fails. */
 	MaxConsume  int         `json:"max_consume"`     /* Only with a small och. */
 	Await       bool        `json:"await,omitempty"` /* The operator's side may also be found waiting for the next item. */
 	/* LateOut: a Read that is pending when the Connect call returns stays
@@ -106,7 +107,7 @@ func (e Event) String() string {
 	case "linecancel":
 		return fmt.Sprintf("linecancel(a%d)", e.A)
 	case "wfail":
-		return fmt.Sprintf("wfail(a%d,%s)", e.A, [...]string{"write", "flush"}[e.Arg])
+		return fmt.Sprintf("wfail(a%d,%s)", e.A, [...]string{"write", "flush", "second-write"}[e.Arg])
 	case "cancel":
 		return fmt.Sprintf("cancel(a%d)", e.A)
 	}
@@ -456,6 +457,9 @@ func (w *World) Enabled() []Event {
 					if a.w.kind >= 2 { /* http.Flusher.Flush cannot report a failure. */
 						evs = append(evs, Event{Op: "wfail", A: a.id, Arg: 1})
 					}
+					if p.WFailLater && 0 == a.w.failLater {
+						evs = append(evs, Event{Op: "wfail", A: a.id, Arg: 2})
+					}
 				}
 			}
 		}
@@ -567,7 +571,9 @@ func (w *World) Do(e Event) *Step {
 		}
 	case "wfail":
 		a := w.attempts[e.A]
-		if 0 == e.Arg {
+		if 2 == e.Arg {
+			a.w.setFailLater(1)
+		} else if 0 == e.Arg {
 			a.w.setFail(true, false)
 		} else {
 			a.w.setFail(false, true)
@@ -801,6 +807,9 @@ func (w *World) Canon() string {
 		}
 		if nil != a.w {
 			fmt.Fprintf(&t, ",W%v%v", a.w.failW, a.w.failF)
+			if 0 != a.w.failLater {
+				fmt.Fprintf(&t, "+%d", a.w.failLater)
+			}
 		}
 		as = append(as, t.String())
 	}
